@@ -787,6 +787,45 @@ def run_model(tier):
     return r.replays, cxs, st
 
 
+def definition_probes(ctx, rep):
+    from .lspclient import LspServer, path_to_uri
+    deep = "\n" * 9 + " " * 36
+    for name, files, (line, ch) in (
+            ("alias-of-imported-tuple", {"a.ucg": 'let b = import "b.ucg";\nlet t = b.q;\nlet z = t.r;\n',
+                                         "b.ucg": deep + "let q = {r = 1};\n"}, (2, 10)),
+            ("chain-through-two-imports", {"a.ucg": 'let b = import "b.ucg";\nlet z = b.q.r;\n',
+                                           "b.ucg": 'let q = import "c.ucg";\n', "c.ucg": deep + "let r = 1;\n"}, (1, 12))):
+        ws = os.path.join(C.scratch_dir("c20def"), name)
+        os.makedirs(ws)
+        for f, t in files.items():
+            with open(os.path.join(ws, f), "w") as fh:
+                fh.write(t)
+        srv = LspServer(ctx.ucg, ws, ctx.home, timeout=30.0)
+        try:
+            srv.start()
+            srv.initialize()
+            uri = path_to_uri(os.path.join(ws, "a.ucg"))
+            srv.notify("textDocument/didOpen", {"textDocument": {"uri": uri, "languageId": "ucg", "version": 1,
+                                                                  "text": files["a.ucg"]}})
+            rid = srv.request("textDocument/definition", {"textDocument": {"uri": uri},
+                                                          "position": {"line": line, "character": ch}})
+            m, _ = srv.wait_response(rid)
+            res = m.get("result")
+            for loc in (res if isinstance(res, list) else [res] if res else []):
+                luri = loc.get("uri") or loc.get("targetUri")
+                rng = loc.get("range") or loc.get("targetRange")
+                fname = luri.rsplit("/", 1)[-1]
+                cause = G.Doc(files.get(fname, "")).check_range(rng)
+                if cause is not None:
+                    rep.disagree({"leg": "definition-probe", "workspace": files, "request": {"line": line, "character": ch},
+                                  "answer": loc, "cause": cause}, key="range-outside:definition:position-of-another-file")
+        except Exception as e:
+            rep.disagree({"leg": "definition-probe", "workspace": files, "error": repr(e)}, key="crash:definition-probe")
+        finally:
+            srv.kill()
+            shutil.rmtree(os.path.dirname(ws), ignore_errors=True)
+
+
 def main(tier, replay=None):
     t0 = time.time()
     rep = C.Reporter(PID)
@@ -978,6 +1017,10 @@ def _main(tier, replay, t0, rep, ctx, seed, gd):
         if key not in {k for _, k, _ in dis2}:
             raise C.ToolError("disagreement %s of session %d did not reproduce on a second run (got %r)"
                               % (key, s.cs["s"], sorted({k for _, k, _ in dis2})))
+    # "every range it reports lies inside the document", for a definition that is found through the analysis of ANOTHER
+    # document: the sessions above seldom ask for it (a field of the local alias of an imported tuple, a chain through
+    # two imports), so two fixed workspaces do
+    definition_probes(ctx, rep)
     code = rep.finish()
     # ---- evidence ------------------------------------------------------------
     def nontrivial(s):
